@@ -2,6 +2,7 @@
 import pool
 
 META = {
+    "thorough_extra": ["mocks", "client-only"],
     "level": "proof",
     "explanation": "Ownership argument whose premises are each decided statically: a connection value cannot be duplicated except through reuse() "
                    "(P4: no Clone supertrait / impl, reuse call sites enumerated, H1 arm of HttpConnection::reuse is None and can_share false), so an "
@@ -18,7 +19,7 @@ META = {
 
 RULES = [
     ("P1", pool.P1, ["default"]),
-    ("P2", pool.P2, ["default"]),
+    ("P2", pool.P2_aspects("callers", "open-guard", "conn"), ["default"]),
     ("P3", pool.P3, ["default"]),
     ("P4", pool.P4, ["default"]),
     ("C02.1", pool.C02_1, ["default"]),
